@@ -339,7 +339,7 @@ func check(raw json.RawMessage) fw.Result {
 	if os.Getenv("C15_STRICT") != "" {
 		in.Strict = true // development aid (no known-defect exclusions); registered commands never set it
 	}
-	quietOnce.Do(wr.Quiet)
+	quietOnce.Do(func() { wr.Quiet(); installHook() })
 	if raceOn {
 		res.Count("race_detector_on", 1)
 	}
@@ -364,6 +364,9 @@ func (c *checker) account(d *cdoc, o *outcome) {
 		return
 	case "error":
 		c.res.Count("docs_error", 1)
+		return
+	case "toolong":
+		c.res.Count("docs_over_page_limit", 1) // outside the domain (page loop longer than maxPages)
 		return
 	}
 	c.res.Count("backend_calls", int64(len(o.Lines)))
@@ -614,6 +617,9 @@ func (c *checker) finish(first []*outcome, primary bool) {
 	c.res.Nontrivial = primary && text && multi
 }
 
+// concLineBudget: see conc (about 12 rounds of 8 documents of 600 backend calls each).
+const concLineBudget = 60000
+
 func (c *checker) conc() {
 	in := c.in
 	n := len(in.Docs)
@@ -656,6 +662,22 @@ func (c *checker) conc() {
 	raceBefore := raceLogSize()
 	results := make([][]*outcome, R)
 	for r := 0; r < R; r++ {
+		if r == 1 {
+			// bound the work of one case by what round 0 produced (a logical measure, not a clock): at
+			// most concLineBudget backend calls over all rounds, but never fewer than 2 rounds
+			total := 0
+			for _, o := range results[0] {
+				total += len(o.Lines)
+			}
+			if total*R > concLineBudget {
+				R = concLineBudget / total
+				if R < 2 {
+					R = 2
+				}
+				results = results[:R]
+				c.res.Count("conc_cases_with_fewer_rounds", 1)
+			}
+		}
 		results[r] = make([]*outcome, G)
 		start := make(chan struct{})
 		var wg sync.WaitGroup
